@@ -309,30 +309,43 @@ def drive(h, prog, replies, flags=(False, False), breaks=None, inspect=None, rng
 
 
 INSPECT = ["PRINT FNO(0)", "PRINT FNT(2)", "PRINT FNO(1) + FNO(0)", "PRINT FNA(FNO(0))", "PRINT FNS$(1)", "PRINT A;B;X", "PRINT 1/0", "? A$", "PRINT FNA(3)", "PRINT FNA(1/0)", "PRINT N(1)", "REM look", "PRINT (", "PRINT Z9 +",
-           "IF 1 THEN PRINT I", "PRINT F(3)", "PRINT SQ(2)", "PRINT \"x\" + 1", "IF 0 THEN PRINT 1 ELSE PRINT J", "PRINT ABS(-K)"]
+           "IF 1 THEN PRINT I", "PRINT F(3)", "PRINT SQ(2)", "PRINT \"x\" + 1", "IF 0 THEN PRINT 1 ELSE PRINT J", "PRINT ABS(-K)", "PRINT FNR(1)", "PRINT FNA(FNR(2))"]
+
+
+# programs whose continuation is sensitive to anything an inspection might leave behind: a function frame (the
+# parameter X shadows the variable X; RETURN pops the innermost frame), a loop, the DATA cursor
+C07_FIXED = [
+    ["10 X = 5", "20 GOSUB 100", "30 PRINT \"BACK\" X", "40 FOR I = 1 TO 2", "50 READ D : PRINT D X", "60 NEXT I", "70 END",
+     "100 PRINT \"X IS\" X", "110 X = X + 1", "120 RETURN", "130 DATA 7, 8"],
+]
+C07_FIXED_INSPECT = [["PRINT FNR(1)"], ["PRINT FNR(1)", "PRINT FNO(0)"], ["PRINT FNA(FNR(2))"], ["PRINT X"]]
 
 
 def run_c07(chk):
     h = core.Harness(chk.harness_path)
     n = 110 if chk.tier == "quick" else 3000
     sessions = []
-    for i in range(n):
+    for i in range(n + len(C07_FIXED)):
         r = chk.rng.fork(("c07", i))
         pg = gen.ProgGen(r, fault=0.03, use_stop=False, use_rnd=True)
-        prog = pg.generate(size=5 + r.below(6))
+        prog = pg.generate(size=5 + r.below(6)) if i >= len(C07_FIXED) else C07_FIXED[i]
         # make inspection of N() harmless: the program owns the array from the start
         # FNO fails inside a function it calls (FNI), FNT's body ends prematurely, FNS$'s body has the wrong kind
+        # FNR never returns: calling it ends in a stack overflow, deep inside nested calls
         prog = ["1 DIM N(12)", "2 DEF FNA(X) = X/X + X", "3 DEF FNI(Y) = 10/Y", "4 DEF FNO(X) = FNI(X) + 1", "5 DEF FNT(X) = X +",
-                "6 DEF FNS$(X) = X"] + prog
+                "6 DEF FNS$(X) = X", "7 DEF FNR(X) = FNR(X + 1)"] + prog
         replies = [gen.gen_reply(r) for _ in range(12)]
         seed = r.below(2 ** 33)
         base, st0, _ = drive(h, prog, replies, seed=seed)
         ev0 = squash_input_requests([e for e in events([row for _, row in base.ops[st0:]]) if e[0] != "B"])
         nturns = len(base.ops) - st0
-        for variant in range(2 if chk.tier == "quick" else 4):
+        fixed_variants = [(set([t]), ins) for t in range(2, nturns + 2) for ins in C07_FIXED_INSPECT] if i < len(C07_FIXED) else None
+        for variant in range(len(fixed_variants) if fixed_variants else (2 if chk.tier == "quick" else 4)):
             k = 1 + r.below(4)
             breaks = set(2 + r.below(max(nturns, 3)) for _ in range(k))
             inspect = [r.choice(INSPECT) for _ in range(r.below(3))] if variant else []
+            if fixed_variants:
+                breaks, inspect = fixed_variants[variant]
             # RND(positive) and reads of not-yet-existing arrays are excluded: they change state by the language's own rules
             s, st1, nb = drive(h, prog, replies, seed=seed, breaks=breaks, inspect=inspect)
             rows = []
@@ -644,6 +657,28 @@ def run_c17(chk):
                 j = next((j for j in range(min(len(base), len(erased))) if base[j] != erased[j]), min(len(base), len(erased)))
                 chk.fail("flags-change-behaviour", f"warnings={cfg[0]} tracing={cfg[1]}: turn {j} differs from the plain run: "
                          f"{(erased[j][:3] if j < len(erased) else None)!r:.200} vs {(base[j][:3] if j < len(base) else None)!r:.200}", session_replay(s))
+        # TRACE / NOTRACE typed in the middle of a session (at a break, before CONT) change nothing either: same
+        # transcript as the session with the same breaks and no command
+        nturns = len(runs[(False, False)][2])
+        for variant in range(1 if chk.tier == "quick" else 2):
+            breaks = set(2 + r.below(max(nturns, 3)) for _ in range(1 + r.below(3)))
+            cmds = [r.choice(["TRACE", "NOTRACE", "trace"])] + ([r.choice(["NOTRACE", "TRACE"])] if r.chance(0.3) else [])
+            b0, st0, _ = drive(h, prog, replies, seed=seed, breaks=breaks, inspect=[])
+            b1, st1, nb = drive(h, prog, replies, seed=seed, breaks=breaks, inspect=cmds)
+            ev = []
+            for sx, stx in ((b0, st0), (b1, st1)):
+                rows_x = [row for op, row in sx.ops[stx:] if not (op[0] == "line" and op[1] not in (b"RUN", b"CONT"))]
+                ev.append(squash_input_requests(events(rows_x)))
+                for _, row in sx.ops:
+                    if row.kind in ("panic", "abort"):
+                        chk.fail("crash:" + row.f.get("msg", "")[:50], row.raw[:160], session_replay(sx))
+            chk.count("mid-session-toggle:breaks=%d" % min(nb, 3))
+            if ev[0] != ev[1]:
+                j = next((j for j in range(min(len(ev[0]), len(ev[1]))) if ev[0][j] != ev[1][j]), min(len(ev[0]), len(ev[1])))
+                chk.fail("trace-command-changes-behaviour",
+                         f"{cmds} typed at breaks {sorted(breaks)}: event {j} is {(ev[1][j] if j < len(ev[1]) else None)!r:.120} instead of "
+                         f"{(ev[0][j] if j < len(ev[0]) else None)!r:.120}", session_replay(b1))
+            sessions.append(b1.ops)
         # the trace names the lines execution passes through
         s, _, rows = runs[(False, True)]
         traced = []
@@ -826,12 +861,16 @@ def run_c14(chk):
         prog = []
         no = 10
         for _ in range(r.below(7) + 2):
-            k = r.weighted([("gen", 30), ("line", 25), ("num", 20), ("data", 25)])
+            k = r.weighted([("gen", 30), ("line", 25), ("num", 20), ("data", 25), ("symnum", 15)])
             if k == "gen":
                 pg = gen.ProgGen(r, fault=0.0)
                 text = pg.stmt_line()
             elif k == "line":
                 text = gen.gen_line(r, malformed=0.0)
+            elif k == "symnum":
+                # a numeral directly behind a name: LIST must keep the two apart AND keep the numeral (zero included)
+                text = r.choice(["PRINT ", "X = ", "A = 3 : PRINT "]) + r.choice(["A", "T$", "X", "A "]) + \
+                    r.choice([".0", ".5", ".25", ".000", ".0E5", ".00000000000000000000000000000000000000000000000001", ".1E-400", ".0 ; 1", ".5.5"])
             elif k == "num":
                 text = r.choice(["PRINT ", "X = ", "IF X = ", "GOTO "]) + r.choice(C14_NUMERALS) + r.choice(["", " : PRINT 1", " + " + r.choice(C14_NUMERALS)])
             else:
@@ -847,6 +886,10 @@ def run_c14(chk):
             chk.fail("crash", la.raw[:160], session_replay(a))
             continue
         listing = [unesc_p(o) for o in la.outputs()]
+        # the harness holds ONE interpreter: finish with the original program before the reloaded one is created
+        replies = ["1", "x", "2", "3"]
+        a.line("RUN")
+        a.run_until_idle(replies=list(replies), max_turns=80)
         b = sess.Session(h)
         for l in listing:
             rw = b.line(l.rstrip("\n"))
@@ -860,9 +903,6 @@ def run_c14(chk):
             chk.fail("list-not-fixpoint", f"LIST after reload differs: {d[0]!r:.160} -> {d[1]!r:.160}", session_replay(a))
         else:
             # identical behaviour under RUN
-            replies = ["1", "x", "2", "3"]
-            a.line("RUN")
-            a.run_until_idle(replies=list(replies), max_turns=80)
             b.line("RUN")
             b.run_until_idle(replies=list(replies), max_turns=80)
             ra = [(x.outcome, x.state, x.f.get("outputs")) for _, x in a.ops[len(prog) + 2:]]
